@@ -26,6 +26,7 @@ import (
 	"fmt"
 	"io"
 	"os"
+	"runtime"
 	"sort"
 	"strconv"
 	"strings"
@@ -509,6 +510,69 @@ func c15trees() []*c15tree {
 	}
 }
 
+// c15guardedSetup runs the construction of the taxonomies the cases are placed on (NewTaxonomy, AddNewTaxa,
+// AddNewName, ReindexParent, Taxon, Rank of the tree under test). These calls never fail on the pinned tree; on
+// a tree where they return an error, panic or end in log.Fatal that is a verdict on the tree (ok=false: the
+// cases that need the taxonomies are skipped), not a failure of the harness.
+func c15guardedSetup(r *verifkit.Result, what string, f func()) (ok bool) {
+	defer func() {
+		if x := recover(); x != nil {
+			ok = false
+			r.Violate("setup/control-run/taxonomy-construction-fails", fmt.Sprintf("%s: %v", what, x), nil)
+		}
+	}()
+	f()
+	return true
+}
+
+// c15GoID: number of the calling goroutine (first line of its stack: "goroutine 17 [running]:").
+func c15GoID() string {
+	b := make([]byte, 64)
+	f := strings.Fields(string(b[:runtime.Stack(b, false)]))
+	if len(f) > 1 {
+		return f[1]
+	}
+	return "?"
+}
+
+// c15net (the three harnesses of this package): in the goroutine of the harness a log.Fatal* becomes a panic that
+// the guards around the implementation calls report (a log.Panic* already is one). Raised in a goroutine the
+// implementation started (the workers of CLIAssignTaxonomy, IndexReferenceDB, the readers) neither can be caught by
+// any guard of the harness and the process ends: the tree under test does that, not the harness. It is recorded as
+// a violation, the shard writes what it has found and stops there.
+type c15net struct {
+	r       *verifkit.Result
+	harness string
+}
+
+func c15installNet(r *verifkit.Result) {
+	n := c15net{r, c15GoID()}
+	log.AddHook(n)
+	log.StandardLogger().ExitFunc = func(code int) {
+		n.end("log.Fatal", fmt.Sprintf("exit(%d)", code))
+		panic(fmt.Sprintf("log.Fatal exit(%d)", code))
+	}
+}
+
+func (n c15net) Levels() []log.Level { return []log.Level{log.PanicLevel} }
+
+func (n c15net) Fire(e *log.Entry) error {
+	n.end("log.Panic", e.Message)
+	return nil
+}
+
+func (n c15net) end(what, msg string) {
+	if c15GoID() == n.harness {
+		return
+	}
+	stack := make([]byte, 3000)
+	stack = stack[:runtime.Stack(stack, false)]
+	n.r.Violate("obitag/"+what+"-in-a-goroutine-of-the-implementation", fmt.Sprintf("%s %q in a goroutine started by the implementation; the shard stops here\n%s", what, msg, stack), nil)
+	n.r.Cap("a log.Fatal / log.Panic in a goroutine of the implementation ended a shard: its remaining cases were not run")
+	n.r.Write()
+	os.Exit(0)
+}
+
 // ---------------------------------------------------------------------------------------------
 // running the implementation
 
@@ -633,10 +697,16 @@ func (e *c15env) evalFind(impl int, p *c15pool, idxs []int) {
 	}
 	// sequences with ambiguity codes: what makes the answer wrong is part of the key. missing = position
 	// in idxs of a best reference that was not returned (-1: any reference at the minimal distance)
-	cause := func() string {
+	cause := func() (why string) {
 		if !p.iupac {
 			return ""
 		}
+		// (the replay below calls obikmer / obiutils of the tree under test)
+		defer func() {
+			if x := recover(); x != nil {
+				why = ":other"
+			}
+		}()
 		// Replay the scan of FindClosests in its own order (decreasing number of shared 4-mers, ties as
 		// obiutils.IntOrder leaves them) under two switches: with / without the 4-mer cut-off (stop at
 		// the first candidate sharing fewer than len(query)-3-4*best 4-mers), and with the distances the
@@ -822,6 +892,9 @@ func (e *c15env) evalIndex(p *c15pool, idxs []int, ti int, taxa []int, s int) {
 		r.Eval(1)
 		return
 	}
+	if ti >= len(e.trees) {
+		return // the taxonomies could not be built (reported once as setup/control-run/...)
+	}
 	t := e.trees[ti]
 	site := "IndexSequence"
 	if p.iupac {
@@ -884,6 +957,9 @@ func (e *c15env) evalIndex(p *c15pool, idxs []int, ti int, taxa []int, s int) {
 		}
 		want[d] = cur
 	}
+	if lseq > 0 && want[lseq-1] != want[0] {
+		r.Count("index_expected_multi_level", 1) // by the naive LCAs: a fact about the case, not about the answer
+	}
 	keys := e.keys[:0]
 	for k, v := range idx {
 		keys = append(keys, k)
@@ -934,6 +1010,9 @@ func (e *c15env) evalIdentify(p *c15pool, idxs []int, ti int, taxa []int) {
 		r.Eval(1)
 		return
 	}
+	if ti >= len(e.trees) {
+		return // the taxonomies could not be built (reported once as setup/control-run/...)
+	}
 	t := e.trees[ti]
 	e.load(p, idxs)
 	set := make(obitax.TaxonSet, len(idxs))
@@ -942,6 +1021,7 @@ func (e *c15env) evalIdentify(p *c15pool, idxs []int, ti int, taxa []int) {
 		e.refs[k].DeleteAttribute("obitag_ref_index")
 	}
 	var panicked string
+	got := 0
 	func() {
 		defer func() {
 			if x := recover(); x != nil {
@@ -949,6 +1029,7 @@ func (e *c15env) evalIdentify(p *c15pool, idxs []int, ti int, taxa []int) {
 			}
 		}()
 		Identify(p.qobj, e.refs, e.cnt, set, t.taxo, false)
+		got = p.qobj.Taxid()
 	}()
 	for k := range idxs {
 		e.refs[k].DeleteAttribute("obitag_ref_index")
@@ -974,7 +1055,15 @@ func (e *c15env) evalIdentify(p *c15pool, idxs []int, ti int, taxa []int) {
 		r.Violate("Identify/panic", desc()+" panic: "+panicked, e.mkcase("identify", p, idxs, ti, taxa, 0))
 		return
 	}
-	got := p.qobj.Taxid()
+	var bestTaxa []int
+	for k, i := range idxs {
+		if p.dq[i] == dmin {
+			bestTaxa = append(bestTaxa, taxa[k])
+		}
+	}
+	if len(bestTaxa) > 0 && t.lca(bestTaxa) != 1 {
+		r.Count("identify_best_lca_below_root", 1) // a fact about the case, not about the answer
+	}
 	if _, ok := t.par[got]; !ok {
 		r.Violate("Identify/unknown-taxon", desc()+fmt.Sprintf(" assigns taxid %d which is not in the taxonomy", got), e.mkcase("identify", p, idxs, ti, taxa, 0))
 		return
@@ -1108,7 +1197,11 @@ func TestVerifC15(t *testing.T) {
 	log.SetOutput(io.Discard)
 	r := verifkit.New("C15")
 	defer r.Write()
-	e := &c15env{r: r, trees: c15trees(), dry: os.Getenv("VERIF_C15_DRY") == "1"}
+	c15installNet(r)
+	e := &c15env{r: r, dry: os.Getenv("VERIF_C15_DRY") == "1"}
+	if !c15guardedSetup(r, "building the three 7-node taxonomies (caterpillar, binary, bushy)", func() { e.trees = c15trees() }) {
+		e.trees = nil // the parts placed on a taxonomy (IndexSequence, Identify) are skipped
+	}
 	if e.dry {
 		r.Cap("dry run: cases counted, not executed")
 	}
@@ -1479,6 +1572,9 @@ func TestVerifC15(t *testing.T) {
 				}
 			})
 
+			if len(e.trees) == 0 {
+				continue // parts B and C need the taxonomies
+			}
 			// ---- part B: IndexSequence ----
 			ntrees := 1 // quick: caterpillar only
 			if thorough {
@@ -1608,6 +1704,7 @@ func TestVerifC15(t *testing.T) {
 	r.RequireNonVacuous("find_ties")
 	r.RequireNonVacuous("find_iupac_match_through_an_ambiguity_code")
 	r.RequireNonVacuous("find_longer_best_and_low_kmer_tie")
-	r.RequireNonVacuous("index_multi_level")
-	r.RequireNonVacuous("identify_below_root")
+	// (index_multi_level and identify_below_root count what the implementation answers: counters only)
+	r.RequireNonVacuous("index_expected_multi_level")
+	r.RequireNonVacuous("identify_best_lca_below_root")
 }
